@@ -55,7 +55,7 @@ if __name__ == "__main__":
     tier = sys.argv[1] if len(sys.argv) > 1 else "quick"
     sroot = os.environ.get("SEED_DIR") or os.path.join(VERIF, "seeded")
     seeds = sys.argv[2:] or sorted(d for d in os.listdir(sroot) if os.path.isdir(os.path.join(sroot, d)))
-    with ThreadPoolExecutor(8) as ex:
+    with ThreadPoolExecutor(int(os.environ.get("MATRIX_JOBS", "8"))) as ex:
         results = list(ex.map(lambda s: run(s, tier), seeds))
     caught = 0
     for r in results:
